@@ -94,8 +94,14 @@ func (ex *Exec) binop(st *State, op token.Token, xt types.Type, a, b Value, yt t
 			}
 			return tt.Lshr(x, sh)
 		case token.EQL:
+			if st.crcMismatch && (x.HasUF || y.HasUF) {
+				return tFalse // harness policy: a stored checksum never matches the one computed over arbitrary bytes
+			}
 			return tt.Eq(x, y)
 		case token.NEQ:
+			if st.crcMismatch && (x.HasUF || y.HasUF) {
+				return tTrue
+			}
 			return tt.Ne(x, y)
 		case token.LSS:
 			if signed {
